@@ -171,6 +171,7 @@ type Frame struct {
 	entry    State
 	top      *Frame
 	parent   *Frame // the frame this one is inlined into (nil for the function under contract)
+	cur      ssa.Instruction // the instruction being executed
 	nopanic  bool
 	defers   []*ssa.Defer
 	loops    map[*ssa.BasicBlock]*LoopInfo
